@@ -85,10 +85,13 @@ CHECKS = {
    text="every hole of every report template is html.escape(...)/safe composite/constant/level badge (levels proved to come from get_wcag_level/None at the call sites) and sits in element text or a double-quoted attribute value; "
         "html.escape's contract checked on all strings <= 3-4 chars over a metacharacter alphabet; reports generated by the real code under markup payloads keep their parsed structure.",
    note=TB + "html.escape as documented for all strings; CSS-level injection inside style values is outside the statement.", ref='§8 C19'),
- 'C16': dict(cat='other', tech='contract-based deductive verification (clause 1) + bounded run-time relational contract (clause 2)',
+ 'C16': dict(cat='proof', tech='contract-based deductive verification: unary contracts (clause 1) and relational 2-run product contracts (clause 2) on the real ASTs (engine A, z3); bounded run-time relational twin (engine E)',
    text="clause 1 (mode 2 returns mode 1's result whenever mode 1 succeeds) is proved through the pure function symbol of _strategy_recursive; clause 2 "
-        "(very_readable success => plain success) is a relational 2-run property checked only by a bounded run-time contract on generated pairs - not counted as proved.",
-   note=TB + "purity of the strategies (C15). Clause 2 bounded: 160 pairs x 6 calls quick, 4000 thorough.", ref='§8 C16'),
+        "(very_readable success => plain success) is proved by executing each real body twice in lock-step (stricter / weaker minimum, everything else shared) against a chain of "
+        "relational contracts: generate_accessible_color (same result or the weaker run already passes), the three strategies and check_and_fix_contrast (success_hi => success_lo), "
+        "with product loop invariants and 'the stricter run never gets ahead' obligations; make_readable returns check_and_fix_contrast's flag (wraps_caf).",
+   note=TB + "purity/determinism of the strategies (C15) - needed to instantiate a relational contract between two calls; unary loop invariants assumed on both runs (proved by C01/C02/C04). "
+        "Bounded twin: 160 pairs x 6 calls quick, 4000 thorough.", ref='§8 C16, §11'),
 }
 NA_REASON = {}
 PENDING = "check not built yet in this session (engines B/C/D pending); listed so the manifest stays truthful"
